@@ -201,6 +201,29 @@ func c01PointChecks(o *Out, what, class string, p s2.Point, desc string) (leaf s
 	return leaf, true
 }
 
+// c01Ulps returns the six points that differ from p by one ulp in one coordinate.
+// Nothing is predicted for them (their projection is not exact); they only have to
+// satisfy the consistency clauses of the property (valid leaf, ancestors are prefixes,
+// every ancestor contains the point).
+func c01Ulps(p s2.Point) []s2.Point {
+	var out []s2.Point
+	for ax := 0; ax < 3; ax++ {
+		for _, dir := range []float64{math.Inf(1), math.Inf(-1)} {
+			q := p
+			switch ax {
+			case 0:
+				q.X = math.Nextafter(q.X, dir)
+			case 1:
+				q.Y = math.Nextafter(q.Y, dir)
+			default:
+				q.Z = math.Nextafter(q.Z, dir)
+			}
+			out = append(out, q)
+		}
+	}
+	return out
+}
+
 func opC01Cell(raw json.RawMessage, o *Out) {
 	var c c01Case
 	if err := json.Unmarshal(raw, &c); err != nil {
@@ -481,6 +504,9 @@ func opC01Cell(raw json.RawMessage, o *Out) {
 				in = true
 			}
 		}
+		for _, q := range c01Ulps(v) {
+			c01PointChecks(o, "vertex-ulp", cls, q, fmt.Sprintf("1-ulp neighbour of vertex %d of cell %s", k, me))
+		}
 		if !in {
 			o.Fail("point/vertex/leaf-not-adjacent/"+cls, "vertex %d of cell %s maps to leaf %v whose level-%d ancestor is not one of the cells around that vertex %v",
 				k, me, leaf, n, c01Fmt(c01IJIDs(c.Vc[k])))
@@ -540,6 +566,11 @@ func opC01Point(raw json.RawMessage, o *Out) {
 		}
 		if !in {
 			o.Fail("point/exact/leaf-not-admissible/"+e.name, "%s maps to leaf %v; the closed leaf cells containing the point are %s", desc, leaf, c01Fmt(adm))
+		}
+		if e.name == "x1" || e.name == "unit" {
+			for _, q := range c01Ulps(e.p) {
+				c01PointChecks(o, "exact-ulp", e.name, q, "1-ulp neighbour of "+desc)
+			}
 		}
 		// closed cells: every cell whose closed square contains the point contains it
 		for _, a := range adm {
